@@ -7,6 +7,7 @@ package logr
 import (
 	"errors"
 	"os"
+	"path/filepath"
 )
 
 type VerifFSOp struct {
@@ -39,10 +40,12 @@ func verifFSErr(what string) error {
 
 //verif:stub os.Stat
 func verifStubStat(name string) (os.FileInfo, error) {
-	VerifFSLog = append(VerifFSLog, VerifFSOp{Op: "stat", Path: name})
 	if nondet_bool("os.Stat-missing") {
+		VerifFSLog = append(VerifFSLog, VerifFSOp{Op: "stat", Path: name})
 		return nil, verifErrNotExist
 	}
+	// the code under analysis only stats directories: "exists" means the directory exists
+	VerifFSLog = append(VerifFSLog, VerifFSOp{Op: "stat-exists", Path: name})
 	return nil, nil
 }
 
@@ -61,8 +64,32 @@ func verifStubMkdir(path string, perm os.FileMode) error {
 	return verifFSErr("mkdir")
 }
 
+// verifIsDir: does the (cleaned) path denote a directory that exists in the modelled tree,
+// i.e. the loot directories themselves, a directory made earlier, or an ancestor of one?
+// Creating or opening a file at such a path fails in every OS.
+func verifIsDir(name string) bool {
+	c := filepath.Clean(name)
+	if LogrInstance != nil {
+		if VerifInside(LogrInstance.AgentPath, c) {
+			return true
+		}
+	}
+	for _, op := range VerifFSLog {
+		if op.Op == "mkdir" || op.Op == "mkdirall" || op.Op == "stat-exists" {
+			if VerifInside(filepath.Clean(op.Path), c) {
+				return true
+			}
+		}
+	}
+	return false
+}
+
 //verif:stub os.Create
 func verifStubCreate(name string) (*os.File, error) {
+	if verifIsDir(name) {
+		VerifFSLog = append(VerifFSLog, VerifFSOp{Op: "create-failed", Path: name})
+		return nil, verifErrIO
+	}
 	if err := verifFSErr("create"); err != nil {
 		VerifFSLog = append(VerifFSLog, VerifFSOp{Op: "create-failed", Path: name})
 		return nil, err
@@ -74,6 +101,10 @@ func verifStubCreate(name string) (*os.File, error) {
 
 //verif:stub os.OpenFile
 func verifStubOpenFile(name string, flag int, perm os.FileMode) (*os.File, error) {
+	if verifIsDir(name) {
+		VerifFSLog = append(VerifFSLog, VerifFSOp{Op: "openfile-failed", Path: name})
+		return nil, verifErrIO
+	}
 	if err := verifFSErr("openfile"); err != nil {
 		VerifFSLog = append(VerifFSLog, VerifFSOp{Op: "openfile-failed", Path: name})
 		return nil, err
@@ -122,9 +153,117 @@ func verifStubWriteFile(name string, data []byte, perm os.FileMode) error {
 func VerifFSEffects() int {
 	n := 0
 	for _, op := range VerifFSLog {
-		if op.Op != "stat" {
+		if op.Op != "stat" && op.Op != "stat-exists" {
 			n++
 		}
 	}
 	return n
+}
+
+// ---------------------------------------------------------------------------------
+// containment oracle shared by the C07 harnesses
+
+// VerifInside reports whether cleaned path p is dir itself or lies below it.
+func VerifInside(p, dir string) bool {
+	if p == dir {
+		return true
+	}
+	if len(p) > len(dir) {
+		if p[:len(dir)] == dir {
+			if p[len(dir)] == '/' {
+				return true
+			}
+		}
+	}
+	return false
+}
+
+// VerifLootRoot prepares the loot tree: "/L" inside gosx, a fresh temp dir natively.
+func VerifLootRoot() string {
+	VerifFSReset(false)
+	if verif_symbolic() {
+		LogrInstance = &Logr{Path: "/L", AgentPath: "/L/agents", ListenerPath: "/L/listener", ServerPath: "/L"}
+		return "/L"
+	}
+	dir, err := os.MkdirTemp("", "verifloot")
+	if err != nil {
+		panic(err)
+	}
+	os.MkdirAll(dir+"/agents", 0o755)
+	LogrInstance = &Logr{Path: dir, AgentPath: dir + "/agents", ListenerPath: dir + "/listener", ServerPath: dir}
+	return dir
+}
+
+// VerifCreatedOutside: was anything created (or written) outside allowed (a directory below
+// root)? Inside gosx the effect log is inspected; natively the real tree below root's
+// parent is walked.
+func VerifCreatedOutside(root, allowed string) bool {
+	if verif_symbolic() {
+		for _, op := range VerifFSLog {
+			switch op.Op {
+			case "mkdir", "mkdirall", "create", "openfile", "writefile":
+				c := filepath.Clean(op.Path)
+				if VerifInside(c, allowed) {
+					continue
+				}
+				// creating the ancestors of the allowed directory is fine
+				if VerifInside(allowed, c) {
+					if op.Op == "mkdir" || op.Op == "mkdirall" {
+						continue
+					}
+				}
+				return true
+			}
+		}
+		return false
+	}
+	outside := false
+	base := filepath.Dir(root)
+	filepath.Walk(base, func(p string, info os.FileInfo, err error) error {
+		if err != nil || p == base {
+			return nil
+		}
+		if !VerifInside(p, root) {
+			// siblings of the loot root that predate the run (other temp dirs) are skipped
+			if info.IsDir() && p != root {
+				return filepath.SkipDir
+			}
+			return nil
+		}
+		if VerifInside(p, allowed) || VerifInside(allowed, p) || p == root+"/agents" {
+			return nil
+		}
+		outside = true
+		return nil
+	})
+	return outside
+}
+
+// VerifFileBytes returns what was written to the file created at path (nil, false if it
+// was never created).
+func VerifFileBytes(path string) ([]byte, bool) {
+	if !verif_symbolic() {
+		b, err := os.ReadFile(path)
+		return b, err == nil
+	}
+	var f *os.File
+	for _, op := range VerifFSLog {
+		if op.Op == "create" || op.Op == "openfile" {
+			if filepath.Clean(op.Path) == filepath.Clean(path) {
+				f = op.File
+			}
+		}
+	}
+	if f == nil {
+		return nil, false
+	}
+	var out []byte
+	for _, op := range VerifFSLog {
+		if op.Op == "write" {
+			if op.File == f {
+				out = append(out, op.Data...)
+			}
+		}
+	}
+	return out, true
 }
